@@ -140,7 +140,8 @@ class Mon(object):
                 self.case_obs.append("%s ok%s" % (monitor, "" if residual is None else " residual=%.3g" % residual))
             return True
         ev = {"monitor": monitor,
-              "case": None if self.case is None else {"kind": self.case[0], "params": jsonable(self.case[1])},
+              "case": None if self.case is None else {"kind": self.case[0], "params": jsonable(self.case[1]),
+                                                          "env": getattr(self, "case_env", None)},
               "observed": jsonable(observed), "expected": jsonable(expected),
               "residual": jsonable(residual), "detail": jsonable(detail)}
         if finding is not None and finding in self.open_findings:
